@@ -3,8 +3,8 @@ import ScyllaVerif.Model.Ring
 import ScyllaVerif.Model.Replicas
 import ScyllaVerif.Drive.Topology
 /-! Line-protocol driver for C04.  Case: `q<kind> <topology> <keyspace strategies> <strategy> <dc|-> <token>`
-(syntax in `Drive/Topology.lean`).  Output: `len=… iter=… choose=… ord=… ep=…` — the size, the iteration order,
-`choose` for every index `0..len`, the ring-ordered view, and `get_token_endpoints("k0", _, token)`.
+(syntax in `Drive/Topology.lean`).  Output: `len=… iter=… choose=… ord=… ep=… epl=… epu=…` — the size, the iteration order,
+`choose` for every index `0..len`, the ring-ordered view, and `get_token_endpoints` for the first keyspace (`k0`), the last one, and an unknown keyspace.
 Everything is deterministic (the random index of `choose` is swept by a scripted RNG), so `impl` is ignored. -/
 namespace ScyllaVerif.Drive.C04
 open ScyllaVerif.Util ScyllaVerif.Ring ScyllaVerif.Replicas ScyllaVerif.Drive.Topology
@@ -25,7 +25,9 @@ def run (case _impl : String) : String :=
       let len := rs.len loc
       let chosen := (List.range len).map (fun i => rs.choose loc i)
       let ep := tokenEndpoints loc pre.head? tok
-      s!"len={len} iter={nodeIds (rs.iter loc)} choose={optIds chosen} ord={nodeIds (rs.ordered loc)} ep={nodeIds ep}"
+      let epl := tokenEndpoints loc pre.getLast? tok
+      let epu := tokenEndpoints loc none tok
+      s!"len={len} iter={nodeIds (rs.iter loc)} choose={optIds chosen} ord={nodeIds (rs.ordered loc)} ep={nodeIds ep} epl={nodeIds epl} epu={nodeIds epu}"
     | _, _, _, _, _ => "bad-case"
   | _ => "bad-case"
 
